@@ -79,7 +79,7 @@ Msgs == {<<97>>}
 Pids == {<<120>>}
 Live == reads = 0                    \* a Read is a leaf of the exploration
 
-MCOpen == Live /\ Open(Id, Oname, 2, MCBanner) /\ UNCHANGED cnt
+MCOpen == Live /\ Open(Id, Oname, 2, FALSE, MCBanner) /\ UNCHANGED cnt
 
 MCLog == /\ Live /\ calls < MaxLogs /\ calls' = calls + 1 /\ UNCHANGED <<cycles, advs, reads, exts, faults, switches, fday>>
          /\ \E kind \in (IF Slim THEN {"P"} ELSE {"W", "I", "P"}), s \in Msgs, pid \in Pids :
@@ -105,9 +105,9 @@ MCCycle == /\ Live
                     \/ BannerLine(St \o <<NL>>)
                     \/ BannerLine(BannerMid(Oname, now, St, <<48>>))
 
-\* keep-days 2, interval 2 s; rotation on or off
+\* keep-days 2, interval 2 s, lines also printed to standard output; rotation on or off
 MCConf == /\ Live /\ ~ Slim /\ cycles < MaxCycles /\ calls = 0 /\ conf.keep = 7
-          /\ \E rot \in BOOLEAN : Configure(2, 2, 2, rot)
+          /\ \E rot \in BOOLEAN : Configure(2, 2, 2, rot, TRUE)
           /\ UNCHANGED cnt
 
 MCExt == /\ Live /\ exts < MaxExt /\ exts' = exts + 1 /\ UNCHANGED <<calls, cycles, advs, reads, faults, switches, fday>>
